@@ -81,6 +81,16 @@ def _search_state_tree(here, out, depth=4):
     if m:
         return {"cmd": ["st_replay", "survivors", m.group(1), m.group(2)], "old": m.group(1), "new": m.group(2),
                 "clause": m.group(3), "tried": int(m.group(4))}, ""
+    note += "; " + p.stdout.strip()[-200:]
+    # ... and one level down, with large cells (the edit is inside a nested call node)
+    try:
+        p = subprocess.run([exe, "survivors-search-nested", str(depth)], capture_output=True, text=True, timeout=600)
+    except subprocess.TimeoutExpired:
+        return None, note + "; nested search timeout"
+    m = re.search(r"FOUND old=(\S+) new=(\S+) clause=(.*?) tried=(\d+)", p.stdout)
+    if m:
+        return {"cmd": ["st_replay", "survivors-nested", m.group(1), m.group(2)], "old": m.group(1), "new": m.group(2),
+                "clause": m.group(3), "tried": int(m.group(4))}, ""
     return None, note + "; " + p.stdout.strip()[-200:]
 
 
@@ -243,6 +253,23 @@ def _search_type_serde(here, out):
     return None, (p.stdout.strip()[-300:] + p.stderr.strip()[-300:])
 
 
+def _search_loader_seq(here, out):
+    """sequences of macro expansions through the real host-side wrapper of a dynamically loaded macro (plugin/loader.rs)"""
+    exe, err = _build("ffi_serde", here, out)
+    if exe is None:
+        return None, "replay harness does not build against the current tree: " + err[-400:]
+    try:
+        p = subprocess.run([exe, "loader-seq"], capture_output=True, text=True, timeout=600)
+    except subprocess.TimeoutExpired:
+        return None, "replay search timeout"
+    m = re.search(r"FOUND value=(\".*?\") clause=(.*)", p.stdout)
+    if m:
+        return {"cmd": ["ffi_replay", "loader-seq"], "value": m.group(1), "clause": m.group(2)}, ""
+    if p.returncode != 0:
+        return {"cmd": ["ffi_replay", "loader-seq"], "value": "a sequence of macro expansions", "clause": "C20[every macro argument decodes to something equal to what was encoded] the host-side wrapper died: " + p.stderr.strip()[-200:]}, ""
+    return None, (p.stdout.strip()[-300:] + p.stderr.strip()[-300:])
+
+
 def _search_let_release(here, out):
     """programs of the repaired let-scope findings (F16: aliased variable, F17: partial record pattern); F15 is a listed
     known finding and is replayed by the known-findings loop, not here"""
@@ -289,7 +316,7 @@ def _search_exchange(here, out):
     return None, p.stdout.strip()[-200:]
 
 
-SEARCHERS = {"shadow": _search_shadow, "drop_shared": _search_drop_shared, "let_release": _search_let_release, "exchange": _search_exchange, "type_serde": _search_type_serde, "state_tree": lambda here, out: _search_state_tree(here, out, 4), "ffi_serde": _search_ffi, "parser": _search_parser, "privacy": _search_privacy, "sched": _search_sched, "boxed": _search_boxed, "cst": _search_cst, "layout": _search_layout, "schedvm": _search_schedvm}
+SEARCHERS = {"loader_seq": _search_loader_seq, "shadow": _search_shadow, "drop_shared": _search_drop_shared, "let_release": _search_let_release, "exchange": _search_exchange, "type_serde": _search_type_serde, "state_tree": lambda here, out: _search_state_tree(here, out, 4), "ffi_serde": _search_ffi, "parser": _search_parser, "privacy": _search_privacy, "sched": _search_sched, "boxed": _search_boxed, "cst": _search_cst, "layout": _search_layout, "schedvm": _search_schedvm}
 TOOLS = {"st_replay": "state_tree", "ffi_replay": "ffi_serde", "parser_replay": "parser"}
 
 
